@@ -47,6 +47,9 @@ type Conn struct {
 	lastDeliver time.Duration
 	wseq        int
 
+	lastPeerTx    time.Duration // peer -> DUT stream: time of the last queued delivery
+	pendingPeerTx int
+
 	onData  func(c *Conn, b []byte) // peer handler (driver goroutine)
 	onClose func(c *Conn)           // DUT closed (driver goroutine)
 
